@@ -594,10 +594,18 @@ func (in *Interp) builtin(fr *frame, b *ssa.Builtin, c *ssa.CallCommon, args []V
 		in.sched.closeCh(args[0].(*ChanV))
 		return nil
 	case "recover":
-		if fr.panicking != nil {
-			p := fr.panicking
-			fr.panicking = nil
-			return p.v
+		// recover stops the panic of the frame whose deferred call we are (directly) executing
+		if tf := fr.deferOf; tf != nil && tf.panicking != nil {
+			p := tf.panicking
+			tf.panicking = nil
+			pv := p.v
+			if tp, ok := pv.(Tuple); ok && len(tp) > 0 {
+				pv = tp[0] // explicit panic(v): the value (the second element is the source position)
+			}
+			if ifc, ok := pv.(Iface); ok {
+				return ifc
+			}
+			return Iface{T: errT, V: &ErrVal{Msg: fmt.Sprint(p.v)}}
 		}
 		return Iface{}
 	}
